@@ -18,10 +18,15 @@ from props import c02 as c02mod
 PROPERTY_ID = 'C04'
 LEVEL = 'exploration'
 DESIGN_REF = 'DESIGN.md section 3, C04'
+EXHAUSTIVE = False
+EXHAUSTIVE_NOTE = ('entry sortunit enumerates all chi^2 vectors of length 0..5 over {0,1,1,2.5,1e30,inf,NaN} (19608) through '
+                   'FitInfo.sort(); the fit-level entries are sampled')
 RULE = ('Hypothesis generates C01 (distance-independent) and C02 (distance-dependent) cases with 1..10 models, exact '
         'duplicates (tied chi^2) and confidence-1 limits (chi^2 >= 1e30 tiers); one evaluation = one package with all '
         'its fits. Non-trivial = a fit with >=3 models whose chi^2 order differs from the package order; distinct = '
-        'distinct canonical JSON.')
+        'distinct canonical JSON. Entries sortunit / sortlong: FitInfo.sort() on identity-coded results whose chi^2 vector '
+        'holds +inf / NaN anywhere in package order (enumerated up to length 5, sampled up to 60); non-trivial = a '
+        'non-finite value before a finite one.')
 ASSUMPTIONS = [
     'package order of the models = row order of the convolved-flux files / cube written by the independent writer',
     'predicted fluxes are compared at 1e-9 absolute (dex) + float32 slack when memory-mapped',
@@ -192,9 +197,56 @@ def cases_3d(draw):
     return draw(_force_conf1(c))
 
 
-ENTRIES = {'rank2d': run_2d, 'rank3d': run_3d}
+def sort_cases():
+    import itertools
+    alphabet = [0., 1., 1., 2.5, 1e30, float('inf'), float('nan')]
+    for n in range(0, 6):
+        for vec in itertools.product(alphabet, repeat=n):
+            yield {'chi2': list(vec)}
+
+
+@st.composite
+def long_sort_case(draw):
+    n = draw(st.integers(0, 60))
+    vals = st.one_of(st.floats(0., 50., allow_nan=False), st.sampled_from([0., 1., 1., 1e30, 2e30, float('inf'), float('nan')]))
+    return {'chi2': draw(st.lists(vals, min_size=n, max_size=n))}
+
+
+def run_sort(case, ctx):
+    """FitInfo.sort() on results that contain infinite / NaN chi^2 anywhere in package order (models rejected as resolved
+    get +inf): every model exactly once, non-decreasing chi^2 (NaN incomparable), rows intact."""
+    import numpy as np
+    from props import c05 as c05mod
+    chi2 = [float(v) for v in case['chi2']]
+    n = len(chi2)
+    info = c05mod.make_info(chi2, 2, with_fluxes=True)     # calls sort(); rows carry identity in every array
+    rows = c05mod.rows_of(info, 'sorted result')
+    if sorted(r[0] for r in rows) != ['model_%03d' % i for i in range(n)]:
+        fail('chi2 %r in package order: after sort() the rows are %r - not every model exactly once' % (
+            chi2, [r[0] for r in rows]), 'c04:not_permutation')
+    for r in rows:
+        i = int(r[0][-3:])
+        want = chi2[i]
+        same = (r[4] == want) or (r[4] != r[4] and want != want)
+        if not same or r[1] != i or r[2] != 10. + i or r[3] != -1. - 0.25 * i or r[5][0] != 100. * i:
+            fail('chi2 %r: after sort() the row labelled %s mixes values of different models: %r' % (chi2, r[0], r),
+                 'c04:row_mixed')
+    seq = [r[4] for r in rows if r[4] == r[4]]
+    if any(a > b for a, b in zip(seq, seq[1:])):
+        fail('chi2 %r: ranking %r is not non-decreasing' % (chi2, [r[4] for r in rows]), 'c04:not_sorted')
+    labels = set()
+    nonfinite_before_finite = any((chi2[i] != chi2[i] or chi2[i] == float('inf')) and any(
+        chi2[j] == chi2[j] and chi2[j] != float('inf') for j in range(i + 1, n)) for i in range(n))
+    if nonfinite_before_finite:
+        labels.add('nonfinite_before_finite_in_package_order')
+    return labels, n >= 3 and nonfinite_before_finite
+
+
+ENTRIES = {'rank2d': run_2d, 'rank3d': run_3d, 'sortunit': run_sort, 'sortlong': run_sort}
 
 
 def plan(ctx):
     ctx.run_given('rank2d', cases_2d(), ctx.scale(60, 1000))
     ctx.run_given('rank3d', cases_3d(), ctx.scale(40, 700))
+    ctx.run_cases('sortunit', ctx.mine(sort_cases()))
+    ctx.run_given('sortlong', long_sort_case(), ctx.scale(100, 2000))
